@@ -7,3 +7,4 @@ the transliterated engine, not only the sampled ones, yields an accepted trace.
 import LLBuild.Props.C06
 import LLBuild.Props.EngineImplSound
 import LLBuild.Props.EngineImplTerm
+import LLBuild.Props.EngineImplAsync
